@@ -699,6 +699,8 @@ class Oracles:
                 continue
             if par is None:
                 continue
+            if par[js] == 'Cancelled' and child[ju] != par[ju]:
+                self.ctx.probe('child_in_later_update_of_cancelled_parent')
             if par[js] in ('Failed', 'Error', 'Cancelled') and not child[jc]:
                 self.fail('C05', 'deps', 'C05/child_of_failed_parent_not_cancelled',
                           f'job {(b, j)} (state {child[js]}) not marked cancelled although parent {p} is {par[js]}')
